@@ -157,18 +157,22 @@ def check(ctx, case):
         # single | or &, exact data): its decidable hypotheses are evaluated by the extracted model at sample
         # points, and its conclusion -- the result's winding numbers add up to the union / intersection indicator
         # -- is compared with the implementation's result
-        if exact and e[0] in ("|", "&", "+", "*") and e[1] == ("var", 0) and e[2] == ("var", 1) and len(env) == 2 \
+        if exact and e[0] in ("|", "&", "+", "*", "-") and e[1] == ("var", 0) and e[2] == ("var", 1) and len(env) == 2 \
                 and all(s_[0] == "S" and O.ccw(s_[1]) for s_ in env):
             union = e[0] in ("|", "+")
+            name = "union" if union else ("difference" if e[0] == "-" else "intersection")
             for p in pts[:: max(1, len(pts) // 4)][:4]:
-                holds = ctx.model.sound_hyps(env[0][1], env[1][1], union, not union, p)
-                ctx.count("theorem C01_%s_sound hypotheses: %s" % ("union" if union else "intersection", "hold" if holds else "fail (vertex line / containment branch)"))
+                if e[0] == "-":
+                    holds = ctx.model.diff_hyps(env[0][1], env[1][1], p)
+                else:
+                    holds = ctx.model.sound_hyps(env[0][1], env[1][1], union, not union, p)
+                ctx.count("theorem C01_%s_sound hypotheses: %s" % (name, "hold" if holds else "fail (vertex line / containment branch)"))
                 if holds:
                     ia, ib = O.region(env[0], p) == "in", O.region(env[1], p) == "in"
-                    predicted = (ia or ib) if union else (ia and ib)
+                    predicted = (ia or ib) if union else ((ia and not ib) if e[0] == "-" else (ia and ib))
                     got = sum(O.wn(j, p) for j in O.shape_jordans(resd)) if resd[0] not in "EW" else (1 if resd[0] == "W" else 0)
                     if (got == 1) != predicted or got not in (0, 1):
-                        fails.append(Fail(kind="K", what="the conclusion of C01_%s_sound (hypotheses hold) is not what the implementation returned" % ("union" if union else "intersection"),
+                        fails.append(Fail(kind="K", what="the conclusion of C01_%s_sound (hypotheses hold) is not what the implementation returned" % name,
                                           p=p, impl=got, model=predicted))
         ctx.count("sample_points", len(pts))
         if wrong:
